@@ -15,6 +15,13 @@ static int run_generic(vh_rng_t *rng)
     return 0;
   }
   mon_quiescent("init");
+  {
+    /* scripted action times are offsets from the start of the case */
+    int i;
+    for (i = 0; i < app_nact; i++) {
+      app_act[i].t += sim_now_us;
+    }
+  }
   app_run();
   mon_timer_check();
   case_finish();
@@ -602,6 +609,9 @@ static void run_transport(vh_rng_t *rng)
   }
 }
 
+#include "sim_search.h"
+#include "sim_cache.h"
+
 static int profile_run(const char *profile, vh_rng_t *rng, uint64_t idx)
 {
   (void)idx;
@@ -612,6 +622,14 @@ static int profile_run(const char *profile, vh_rng_t *rng, uint64_t idx)
     gen_hostile(rng);
     run_generic(rng);
     hostile_fingerprint();
+    return 1;
+  }
+  if (!strcmp(profile, "cache")) {
+    run_cache(rng);
+    return 1;
+  }
+  if (!strcmp(profile, "search")) {
+    run_search(rng);
     return 1;
   }
   if (!strcmp(profile, "transport")) {
